@@ -122,6 +122,7 @@ type Stats struct {
 	TraceHash      uint64
 	SyncHash       uint64
 	SyncEvents     uint64
+	AtomicPoints   uint64 // decision points at sync.Map / sync.Pool / sync/atomic operations
 	Blocked        uint64
 	ReaderPendingW uint64
 	OverlapSame    uint64
